@@ -207,10 +207,12 @@ impl<T> Pool<T> {
         crate::verif::point("uget.pop");
         let obj = {
             let mut queue = inner.queue.lock().unwrap();
-            queue.pop().unwrap()
+            queue.pop()
         };
         #[cfg(deadpool_verif)]
         crate::verif::point("uget.popped");
+        // `close()` may have emptied the queue after the permit was obtained.
+        let obj = obj.ok_or(PoolError::Closed)?;
         permit.forget();
         let _ = inner.available.fetch_sub(1, Ordering::Relaxed);
         Ok(Object {
@@ -252,10 +254,12 @@ impl<T> Pool<T> {
         crate::verif::point("uget.pop");
         let obj = {
             let mut queue = inner.queue.lock().unwrap();
-            queue.pop().unwrap()
+            queue.pop()
         };
         #[cfg(deadpool_verif)]
         crate::verif::point("uget.popped");
+        // `close()` may have emptied the queue after the permit was obtained.
+        let obj = obj.ok_or(PoolError::Closed)?;
         permit.forget();
         let _ = inner.available.fetch_sub(1, Ordering::Relaxed);
         Ok(Object {
@@ -277,8 +281,7 @@ impl<T> Pool<T> {
         match self.inner.size_semaphore.acquire().await {
             Ok(permit) => {
                 permit.forget();
-                self._add(object);
-                Ok(())
+                self._add(object)
             }
             Err(_) => Err((object, PoolError::Closed)),
         }
@@ -295,8 +298,7 @@ impl<T> Pool<T> {
         match self.inner.size_semaphore.try_acquire() {
             Ok(permit) => {
                 permit.forget();
-                self._add(object);
-                Ok(())
+                self._add(object)
             }
             Err(e) => Err(match e {
                 TryAcquireError::NoPermits => (object, PoolError::Timeout),
@@ -310,14 +312,21 @@ impl<T> Pool<T> {
     /// Prior calling this it must be guaranteed that `size` doesn't exceed
     /// `max_size`. In the methods `add` and `try_add` this is ensured by using
     /// the `size_semaphore`.
-    fn _add(&self, object: T) {
+    ///
+    /// A [`Pool`] which has been closed in the meantime hands the `object`
+    /// back. `close()` closes the `semaphore` before it takes the lock of the
+    /// queue, therefore an `object` pushed here is always seen by `close()`.
+    fn _add(&self, object: T) -> Result<(), (T, PoolError)> {
         #[cfg(deadpool_verif)]
         crate::verif::point("uadd.size_inc");
-        let _ = self.inner.size.fetch_add(1, Ordering::Relaxed);
         #[cfg(deadpool_verif)]
         crate::verif::point("uadd.push");
         {
             let mut queue = self.inner.queue.lock().unwrap();
+            if self.inner.is_closed() {
+                return Err((object, PoolError::Closed));
+            }
+            let _ = self.inner.size.fetch_add(1, Ordering::Relaxed);
             queue.push(object);
         }
         #[cfg(deadpool_verif)]
@@ -326,6 +335,7 @@ impl<T> Pool<T> {
         #[cfg(deadpool_verif)]
         crate::verif::point("uadd.add_permits");
         self.inner.semaphore.add_permits(1);
+        Ok(())
     }
 
     /// Removes an [`Object`] from this [`Pool`].
